@@ -92,3 +92,96 @@ def expandBlock (c : Ctx n) (d : Diag n) (szLimit : Option Nat) : Diag n × Outc
   blockLoop c szLimit (fuelOf n) d [0]
 
 end Balm.Impl
+
+namespace Balm.Impl
+
+open Balm
+
+variable {n : Nat}
+
+/-! ### the general traversal: source shortcuts and the motif-avoidant check as an oracle
+
+`expand_source_blocks(sd, check_maa, size_limit, optimize_source_nodes)`.  The verdicts "this block has
+no motif-avoidant attractor candidate" are outcomes of candidate computations on component
+sub-diagrams; the model consumes them from a transcript (`clean`), in the order they are asked for. -/
+
+/-- source variables of the network percolated to `p`: free and with identity update inside `p` -/
+def sourcesIn (N : Net n) (p : Space n) : List (Fin n) :=
+  (List.finRange n).filter fun i => (p[i]).isNone && (statesOf p).all fun s => N.f i s == s[i]
+
+/-- all valuations of the given variables on top of `p`, in `itertools.product` order -/
+def valuations (p : Space n) : List (Fin n) → List (Space n)
+  | [] => [p]
+  | v :: vs => (valuations (p.set v (some false)) vs) ++ (valuations (p.set v (some true)) vs)
+
+structure BlockCfg where
+  checkMaa : Bool
+  optSrc : Bool
+  szLimit : Option Nat
+
+/-- first clean block, consuming one verdict per block asked -/
+def pickClean : List (List (Fin n) × List Nat) → List Bool → Option (List Nat) × List Bool
+  | [], clean => (none, clean)
+  | b :: bs, [] => pickClean bs []          -- transcript exhausted: treated as "not clean"
+  | b :: bs, v :: clean => if v then (some b.2, clean) else pickClean bs clean
+
+def minimalBlocks (blocks : List (List (Fin n) × List Nat)) : List (List (Fin n) × List Nat) :=
+  let minimal := if blocks.length > 1 then blocks.filter fun b => !(blocks.any fun b2 => properSubset b2.1 b.1) else blocks
+  minimal.mergeSort (fun x y => x.2.length ≤ y.2.length)
+
+def blockLevelX (c : Ctx n) (cfg : BlockCfg) :
+    List Nat → Diag n → List Nat → List Bool → Diag n × List Nat × List Bool × Option Outcome
+  | [], d, next, clean => (d, next, clean, none)
+  | node :: rest, d, next, clean =>
+    if d.isExp node then blockLevelX c cfg rest d next clean
+    else if hit cfg.szLimit d.size then (d, next, clean, some (.ok false))
+    else
+      let p := d.space node
+      let srcs := sourcesIn c.N p
+      if !srcs.isEmpty && cfg.optSrc then
+        let expected := d.size + 2 ^ srcs.length
+        if expected > c.motifLimit then (d, next, clean, some .err)
+        else if hit' cfg.szLimit expected then (d, next, clean, some (.ok false))
+        else
+          let (d', ids) := (valuations p srcs).foldl (fun (acc : Diag n × List Nat) m =>
+              let r := ensureChild c acc.1 (some node) m
+              (r.1, acc.2 ++ [r.2])) (d, [])
+          blockLevelX c cfg rest (setExp d' node) (addSet ids next) clean
+      else
+        let (d', okk) := expandNode c d node
+        if !okk then (d', next, clean, some .err)
+        else
+          let succ := sortNat (d'.succs node)
+          match succ with
+          | [] => blockLevelX c cfg rest d' next clean
+          | s :: more =>
+            if more.isEmpty && !cfg.checkMaa then blockLevelX c cfg rest d' (addSet [s] next) clean
+            else
+              let blocks := minimalBlocks (groupBlocks (succ.map fun s => (s, blockOfSucc c.N d' node s)) [])
+              if !cfg.checkMaa then
+                blockLevelX c cfg rest d' (addSet (match blocks with | [] => [] | b :: _ => b.2) next) clean
+              else
+                let (pick, clean') := pickClean blocks clean
+                match pick with
+                | some nodes => blockLevelX c cfg rest d' (addSet nodes next) clean'
+                | none => blockLevelX c cfg rest d' (addSet succ next) clean'
+where
+  /-- `size_limit is not None and x > size_limit` -/
+  hit' (lim : Option Nat) (x : Nat) : Bool :=
+    match lim with
+    | some L => decide (x > L)
+    | none => false
+
+def blockLoopX (c : Ctx n) (cfg : BlockCfg) : Nat → Diag n → List Nat → List Bool → Diag n × Outcome × List Bool
+  | 0, d, _, clean => (d, .ok true, clean)
+  | fuel+1, d, cur, clean =>
+    if cur.isEmpty then (d, .ok true, clean) else
+    let (d', next, clean', early) := blockLevelX c cfg (sortNat cur) d [] clean
+    match early with
+    | some o => (d', o, clean')
+    | none => blockLoopX c cfg fuel d' next clean'
+
+def expandBlockX (c : Ctx n) (d : Diag n) (cfg : BlockCfg) (clean : List Bool) : Diag n × Outcome × List Bool :=
+  blockLoopX c cfg (fuelOf n) d [0] clean
+
+end Balm.Impl
